@@ -35,7 +35,7 @@ def seqOk (t : Table) (fs : FlagMap) (st : StateId) (ab : Ab) (loops : Bool) (s 
   | none => false
   | some ab' =>
     match s.trans with
-    | none => !loops || (fs st).2.le ab'
+    | none => if loops then (fs st).2.le ab' else ab'.P
     | some (.reconsume tg) => ab'.P && (fs tg).1.le ab'
     | tr => (transTargets t st tr).all fun tg => (fs tg).1.le ab'
 
